@@ -70,7 +70,7 @@ def all_cases():
 def enum_programs(mode):
     cases = list(all_cases())
     if mode.get('stride') and mode.get('tier') == 'quick':
-        cases = cases[::mode['stride']]       # memcheck is ~40x slower: the quick tier runs every n-th case, the thorough tier all
+        cases = cases[::mode['stride']]       # memcheck is ~40x slower: the quick tier runs every n-th case (n = mode['stride']), the thorough tier all
     blk = mode.get('block', BLOCK)
     return [{'machine': MACHINE, 'seed': None, 'block': i // blk, 'part': 'reenter', 'ops': cases[i:i + blk]}
             for i in range(0, len(cases), blk)]
